@@ -51,7 +51,9 @@ class Server(object):
             logger.exception('%s error', name)
             is_ok = False
             try:
-                message = str(e)
+                # (what UTF-8 cannot carry - a lone surrogate - is escaped:
+                # the message arrives, not a serialize error in its place)
+                message = str(e).encode('utf-8', 'backslashreplace').decode('utf-8')
             except Exception:
                 # an exception that cannot describe itself is still only a failed request
                 message = 'unprintable {}'.format(e.__class__.__name__)
